@@ -588,11 +588,20 @@ def _check_waitqueues(check, an: Analysis, rule: str = 'L2'):
     # both store deques (FIFO per key)
     for qn in (HQ, SD):
         push_fn = an.method(qn, 'push')
-        made = [n for n in ast.walk(push_fn.node) if isinstance(n, ast.Call)
-                and ast.unparse(n.func) in ('deque', 'collections.deque')]
+        # on the paths of push (its private stages run in place): what is stored into
+        # `_data[key]` is a fresh empty deque, wherever a bucket is created
+        made, good = 0, True
+        for path in an.paths(an.callee(qn, 'push')):
+            for index, event in enumerate(path.events):
+                if event.kind == 'store' and isinstance(event.node, ast.Subscript) and \
+                        rules.value_text(path, index, event.node.value) == 'self._data':
+                    made += 1
+                    value = event.data.get('value')
+                    good &= value is not None and rules.value_text(
+                        path, index, value) in ('deque()', 'collections.deque()')
         check.instance(rule, '%s.push:deque-per-key' % qn.rsplit('.', 1)[-1],
-                       len(made) == 1 and not made[0].args, where_fn(push_fn),
-                       'a fresh empty deque per key')
+                       made > 0 and good, where_fn(push_fn),
+                       'a fresh empty deque per key (%d bucket creations on paths)' % made)
 
 
 def _future_fact(an, facts, text, fn, owner) -> bool:
